@@ -134,3 +134,28 @@ package core
 //@   ensures result == getVMetaStore(stores)
 //@ func GetLabelStore
 //@   ensures result == getLabelStore(stores)
+
+// ---- key listing (C07) --------------------------------------------------------------------------
+
+// fetchKeys forwards every page unchanged and stops without error/interrupt only at the last page
+//@ func fetchKeys
+//@   recv doneChan flag interrupted
+//@   call iterator#1 bind itErr = $ret2
+//@   send keyBatchChan#1 assert [error-page] $val.err == err && err != nil
+//@   send keyBatchChan#3 assert [page] $val.keys == ks && $val.err == nil && len(ks) > 0
+//@   ensures [complete] !interrupted && itErr_set && itErr == nil ==> next == ""
+
+// keep exactly the keys whose base name starts with the filter; token and error pass through
+//@ func basenameKeyFilter$1
+//@   call Base#1 assert [of-key] $0 == key
+//@   call HasPrefix#1 assert [base-prefix] $0 == path.Base(key) && $1 == filter
+//@   ensures [passthrough] ret1 == next && ret2 == err
+//@   ensures [on-error] err != nil ==> ret0 == keys
+//@   loop 1 invariant [subseq] len(filtered) <= rangeindex + 1 && len(filtered) >= 0
+
+// ---- file list reassembly (C04) ------------------------------------------------------------------
+//@ func unpackBundleFileList
+//@   requires bundle != nil && bundleEntriesPerFile > 0 && bundleEntriesPerFile < 1000000000
+//@   call Errorf#1 assert [over-full] len(res.bundleEntries.BundleEntries) > bundleEntriesPerFile
+//@   call Errorf#2 assert [not-full] len(res.bundleEntries.BundleEntries) != bundleEntriesPerFile
+//@   call Errorf#2 assert [not-last] res.idx + 1 != bundle.BundleDescriptor.BundleEntriesFileCount
